@@ -37,6 +37,7 @@ type HelperCfg struct {
 	StallLen   int   `json:"stall_len,omitempty"`   // ... for this many slots
 	DieAt      int   `json:"die_at,omitempty"`      // after this many records/lines the helper dies (0 = never)
 	ReadBuf    int   `json:"read_buf,omitempty"`    // out helper: size of its read buffer
+	Burst      int   `json:"burst,omitempty"`       // in helper: number of records it emits at most (0 = 400)
 }
 
 // CatSc is a portworld (b) scenario.
@@ -61,6 +62,10 @@ type CatSc struct {
 	// ViaListenTo: listeners are attached with midi.ListenTo (which opens the port if
 	// necessary) instead of in.Listen.
 	ViaListenTo bool `json:"via_listen_to,omitempty"`
+	// A stalled consumer: the SlowAt-th call of a listener callback (1-based, 0 = never)
+	// does not return for SlowSlots slots of fake time.
+	SlowAt    int `json:"slow_at,omitempty"`
+	SlowSlots int `json:"slow_slots,omitempty"`
 }
 
 // inRecMsg is the message carried by record k of the in helper.
@@ -142,6 +147,18 @@ func (catWorld) Gen(seed uint64, tier string) core.Scenario {
 		}
 		if r.Chance(1, 8) {
 			s.InHelper.DieAt = r.Range(1, 8)
+		}
+		if mode == 0 && r.Chance(1, 48) {
+			// a burst of more than a thousand records meets a listener that does not return
+			// for a long time, then everything is given time to drain
+			s.InHelper = HelperCfg{Gap: 0, Burst: r.PickInt(1100, 1300)}
+			s.Mix, s.Observers, s.Extra = false, 0, false
+			s.SlowAt, s.SlowSlots = r.Range(1, 20), r.PickInt(30000, 45000)
+			s.InOps = []CatOp{{Op: "open"}, {Op: "listen"}, {Op: "drain"}, {Op: "stop"}, {Op: "close"}}
+			return s
+		}
+		if r.Chance(1, 6) {
+			s.SlowAt, s.SlowSlots = r.Range(1, 6), r.PickInt(20, 100, 400)
 		}
 		open, listening := false, false
 		nListens := 0
@@ -343,6 +360,20 @@ func (s *CatSc) Shrinks(try0 func(core.Scenario) bool) bool {
 			return true
 		}
 	}
+	if s.SlowAt > 0 {
+		c := *s
+		c.SlowAt, c.SlowSlots = 0, 0
+		if try(&c) {
+			return true
+		}
+	}
+	if s.InHelper.Burst > 0 {
+		c := *s
+		c.InHelper.Burst = 0
+		if try(&c) {
+			return true
+		}
+	}
 	if s.Mix {
 		c := *s
 		c.Mix, c.ActiveSense, c.TimeCode, c.SysEx = false, false, false, false
@@ -405,12 +436,14 @@ type helper struct {
 }
 
 type world struct {
-	sc       *CatSc
-	inStarts int
-	outStart int
-	helpers  [64]*helper
-	nHelpers int
-	nextRec  int64
+	sc        *CatSc
+	inStarts  int
+	outStart  int
+	helpers   [64]*helper
+	nHelpers  int
+	nextRec   int64
+	emitted   int // records the in helper has written (-1: it has finished its burst)
+	callbacks int
 }
 
 // The harness keeps its own shared state out of the race detector's sight (norace
@@ -477,10 +510,11 @@ func installHooks() {
 	}
 	hooksInstalled = true
 	midicatdrv.VerifInstall(midicatdrv.VerifHooks{
-		Yield: yield,
-		Spawn: spawn,
-		Enter: enter,
-		Exit:  exit,
+		Yield:  yield,
+		Select: selectStart,
+		Spawn:  spawn,
+		Enter:  enter,
+		Exit:   exit,
 		Output: func(c *exec.Cmd) ([]byte, error) {
 			joined := strings.Join(c.Args, " ")
 			switch {
@@ -581,11 +615,31 @@ func (w *world) runInHelper(h *helper) {
 		}
 		logEvent("emit-done", k, int64(h.port), "")
 		emitted++
-		if emitted > 400 {
+		w.setEmitted(emitted)
+		max := 400
+		if h.cfg.Burst > 0 {
+			max = h.cfg.Burst
+		}
+		if emitted > max {
+			w.setEmitted(-1)
 			return
 		}
 	}
 }
+
+//go:norace
+func (w *world) setEmitted(n int) { w.emitted = n }
+
+//go:norace
+func (w *world) emittedNow() int { return w.emitted }
+
+// bumpCallbacks counts the listener calls of the run.
+//
+//go:norace
+func (w *world) bumpCallbacks() int { w.callbacks++; return w.callbacks }
+
+//go:norace
+func (w *world) callbacksNow() int { return w.callbacks }
 
 //go:norace
 func (w *world) takeRec() int64 {
@@ -780,8 +834,30 @@ func (s *CatSc) execute(env *core.Env) (ro runOut) {
 						}()
 					}
 				}
+				// the stalled consumer: one callback that stays away for a while (it sleeps a
+				// multiple of the slot length, so it wakes in its own slot, and yields at once)
+				slow := func(j int64) {
+					if n := w.bumpCallbacks(); s.SlowAt > 0 && n == s.SlowAt {
+						logEvent("slow-callback", int64(s.SlowSlots), 0, "")
+						time.Sleep(time.Duration(int64(s.SlowSlots) * K))
+						yield()
+						logEvent("callback-returns", j, 0, "")
+					}
+				}
 				for i, op := range s.InOps {
 					switch op.Op {
+					case "drain":
+						// until the helper has written its burst and no callback has been seen for
+						// a good while (bounded)
+						idle, lastN := 0, -1
+						for round := 0; round < 4000 && idle < 8; round++ {
+							sleepSlots(40)
+							if n := w.callbacksNow(); w.emittedNow() < 0 && n == lastN {
+								idle++
+							} else {
+								idle, lastN = 0, n
+							}
+						}
 					case "open":
 						do("in", i, "open", func() (error, int64) { return in.Open(), 0 })
 					case "listen":
@@ -807,10 +883,12 @@ func (s *CatSc) execute(env *core.Env) (ro runOut) {
 								}
 								stop, err = midi.ListenTo(in, func(m midi.Message, ms int32) {
 									logEvent("callback", j, int64(ms), string(m))
+									slow(j)
 								}, o...)
 							} else {
 								stop, err = in.Listen(func(b []byte, ms int32) {
 									logEvent("callback", j, int64(ms), string(b))
+									slow(j)
 								}, drivers.ListenConfig{ActiveSense: as, TimeCode: tc, SysEx: sx})
 							}
 							if err == nil {
